@@ -110,6 +110,14 @@ class NameFixPass(ir.passes.InPlacePass):
         value_counter: collections.Counter[str] = collections.Counter()
         node_counter: collections.Counter[str] = collections.Counter()
 
+        # Names that already exist anywhere in this graph (subgraphs included). Fresh names
+        # avoid them, so that a name that is already unique is never taken away from the
+        # value/node that carries it, and renaming an initializer can never collide with an
+        # initializer that has not been visited yet.
+        self._reserved_value_names, self._reserved_node_names = _collect_existing_names(
+            graph_like
+        )
+
         def enter_graph(graph_like) -> None:
             """Callback for entering a subgraph."""
             # Initialize new scopes with all names from the parent scope
@@ -210,7 +218,9 @@ class NameFixPass(ir.passes.InPlacePass):
         )
 
         preferred_name = self._name_generator.generate_value_name(value)
-        value.name = _find_and_record_next_unique_name(preferred_name, used_names, counter)
+        value.name = _find_and_record_next_unique_name(
+            preferred_name, used_names, counter, self._reserved_value_names
+        )
         logger.debug("Assigned name %s to unnamed value", value.name)
         return True
 
@@ -223,7 +233,9 @@ class NameFixPass(ir.passes.InPlacePass):
         )
 
         preferred_name = self._name_generator.generate_node_name(node)
-        node.name = _find_and_record_next_unique_name(preferred_name, used_names, counter)
+        node.name = _find_and_record_next_unique_name(
+            preferred_name, used_names, counter, self._reserved_node_names
+        )
         logger.debug("Assigned name %s to unnamed node", node.name)
         return True
 
@@ -244,7 +256,9 @@ class NameFixPass(ir.passes.InPlacePass):
 
         # If name is already used, make it unique
         base_name = self._name_generator.generate_value_name(value)
-        value.name = _find_and_record_next_unique_name(base_name, used_names, counter)
+        value.name = _find_and_record_next_unique_name(
+            base_name, used_names, counter, self._reserved_value_names
+        )
         logger.debug("Renamed value from %s to %s for uniqueness", original_name, value.name)
         return True
 
@@ -263,17 +277,46 @@ class NameFixPass(ir.passes.InPlacePass):
 
         # If name is already used, make it unique
         base_name = self._name_generator.generate_node_name(node)
-        node.name = _find_and_record_next_unique_name(base_name, used_names, counter)
+        node.name = _find_and_record_next_unique_name(
+            base_name, used_names, counter, self._reserved_node_names
+        )
         logger.debug("Renamed node from %s to %s for uniqueness", original_name, node.name)
         return True
 
 
+def _collect_existing_names(graph_like: ir.Graph | ir.Function) -> tuple[set[str], set[str]]:
+    """Collect all non-empty value names and node names in the graph and its subgraphs."""
+    value_names: set[str] = set()
+    node_names: set[str] = set()
+
+    def enter_graph(graph) -> None:
+        for value in (*graph.inputs, *graph.outputs):
+            if value.name:
+                value_names.add(value.name)
+        if isinstance(graph, ir.Graph):
+            value_names.update(graph.initializers)
+
+    for node in ir.traversal.RecursiveGraphIterator(graph_like, enter_graph=enter_graph):
+        if node.name:
+            node_names.add(node.name)
+        for value in (*node.inputs, *node.outputs):
+            if value is not None and value.name:
+                value_names.add(value.name)
+    return value_names, node_names
+
+
 def _find_and_record_next_unique_name(
-    preferred_name: str, used_names: set[str], counter: collections.Counter[str]
+    preferred_name: str,
+    used_names: set[str],
+    counter: collections.Counter[str],
+    reserved_names: set[str] = frozenset(),  # type: ignore[assignment]
 ) -> str:
-    """Generate a unique name based on the preferred name and current counter."""
+    """Generate a unique name based on the preferred name and current counter.
+
+    Names in ``reserved_names`` (names that exist elsewhere in the graph) are never generated.
+    """
     new_name = preferred_name
-    while new_name in used_names:
+    while new_name in used_names or new_name in reserved_names:
         counter[preferred_name] += 1
         new_name = f"{preferred_name}_{counter[preferred_name]}"
     used_names.add(new_name)
